@@ -234,6 +234,10 @@ func (wr *warnResponseWrapper) flushBodyContents() error {
 }
 
 func (wr *warnResponseWrapper) statusCode() int {
+	if !wr.headerWritten {
+		// a handler that never writes answers 200, as with net/http
+		return http.StatusOK
+	}
 	return wr.status
 }
 
